@@ -512,8 +512,8 @@ pub fn case(t: &mut Tape, ctx: &CaseCtx) -> CaseResult {
 
 pub fn run(mut run: Run) -> i32 {
     run.replay_committed(&case);
-    run.random("client-built requests -> handle_request", &[Tape::encode_choice(0, 2)], run.n(40_000, 800_000), 200, &case);
-    run.random("state machine end to end against the in-process mock", &[Tape::encode_choice(1, 2)], run.n(15_000, 300_000), 200, &case);
+    run.random("client-built requests -> handle_request", &[Tape::encode_choice(0, 2)], run.n(100_000, 1_000_000), 200, &case);
+    run.random("state machine end to end against the in-process mock", &[Tape::encode_choice(1, 2)], run.n(40_000, 400_000), 200, &case);
     run.finish(
         RULE,
         300,
